@@ -104,6 +104,37 @@ func init() {
 		Stub: []string{"network (simnet)", "scripted clients, visitors and adversaries (independent protocol implementation)", "users", "clock"},
 		Rule: "one run = 1-3 stcp/sudp/xtcp proxies with drawn allowed-user lists and a seeded sequence of visitor connections and NAT-hole requests with right/wrong signatures, run ids (own, empty, unknown, foreign) and users, interleaved with proxy close/re-open; distinct = distinct event-log hash",
 	})
+	reg(&propSpec{ID: "C15", Level: "fault_enumeration",
+		Batches: []batchSpec{
+			{Name: "l1", World: "plugins", Weight: 6},
+			{Name: "l2", World: "plugins", Weight: 2, Park: 0.005, Gos: 0.02},
+		},
+		Stub: []string{"network (simnet)", "plugin HTTP servers (real net/http, scripted outcomes)", "scripted client", "users", "clock"},
+		Rule: "one run = 0-3 stub plugin servers, each subscribed to a drawn subset of {Login, NewProxy, Ping, NewWorkConn, NewUserConn, CloseProxy} with a drawn outcome per operation (accept, accept-with-rewrite, reject, HTTP 500, connection reset, malformed JSON, unreachable); every operation is driven once and compared with the fold over the chain; distinct = distinct event-log hash",
+	})
+	reg(&propSpec{ID: "C17", Level: "exploration", CrashCounts: true,
+		Batches: []batchSpec{
+			{Name: "l1", World: "codec", Weight: 6},
+			{Name: "l2", World: "codec", Weight: 2, Park: 0.005, Gos: 0.02},
+		},
+		Stub: []string{"network (simnet)", "scripted peers (independent protocol implementation)", "users", "clock"},
+		Rule: "one run = real frps with an honest scripted client (independent codec: any drift of framing or field names breaks every login) and a seeded sequence of framing cases on fresh and established connections: 1-byte chunking, EOF at arbitrary offsets, unknown type bytes, negative/oversized lengths with withheld bodies, malformed bodies, golden frames of the client->server message types; every frame frps emits is re-parsed against the released field names; distinct = distinct event-log hash",
+		Assume: []string{"value-level round trip over all field values of all 18 types is an input-only statement and is covered only as far as generated messages cross the simulated wire (DESIGN.md §9)"},
+	})
+	reg(&propSpec{ID: "C16", Level: "exploration", CrashCounts: true, RunWall: 240 * time.Second,
+		Batches: []batchSpec{
+			{Name: "barrage", World: "barrage", Weight: 4},
+			{Name: "barrage-l2", World: "barrage", Weight: 3, Park: 0.01, Gos: 0.03},
+			{Name: "barrage-race", World: "barrage", Weight: 2, Race: true, Park: 0.005, Gos: 0.02},
+			{Name: "groups-race", World: "groups", Weight: 1, Race: true, Park: 0.01, Gos: 0.02},
+			{Name: "visitors-race", World: "visitors", Weight: 1, Race: true, Park: 0.005, Gos: 0.02},
+			{Name: "sessions-race", World: "sessions", Weight: 1, Race: true, Park: 0.005, Gos: 0.02},
+			{Name: "workconn-race", World: "workconn", Weight: 1, Race: true, Park: 0.005, Gos: 0.02},
+			{Name: "release-race", World: "release", Weight: 1, Race: true},
+		},
+		Stub: []string{"network (simnet)", "scripted peers (independent protocol implementation)", "users", "clock"},
+		Rule: "one run = real frps with an honest client and 2-5 authenticated scripted peers sending every message type with extreme field values (negative/huge numbers, empty/very long/non-UTF-8 strings, nil maps, malformed addresses) concurrently with user probes, visitor and NAT-hole traffic; plus race-detector builds of this and the lifecycle worlds, whose reports are classified by accessed object (map operation / channel close in frp server or pkg code); any frp panic or fatal error in any world counts; distinct = distinct event-log hash",
+	})
 	reg(&propSpec{ID: "C10", Level: "fault_enumeration",
 		Batches: []batchSpec{
 			{Name: "cycles", World: "release", Weight: 5},
@@ -233,6 +264,18 @@ func classifyCrash(res *Result) (v *Violation, harnessErr string) {
 	}
 	return &Violation{Property: "C16", Oracle: kind, Sig: top + "|" + msg,
 		Detail: first + "\n" + tail(stack, 40)}, ""
+}
+
+// postProcess attaches violations derived from the process outcome (frp panics/fatals, race reports).
+func postProcess(in RunInput, r *Result) {
+	if in.Race && r.Verdict != "crash" && r.Verdict != "hang" {
+		r.Violations = append(r.Violations, classifyRaces(r.Crash)...)
+	}
+	if r.Verdict == "crash" {
+		if v, _ := classifyCrash(r); v != nil {
+			r.Violations = append(r.Violations, *v)
+		}
+	}
 }
 
 // ---------------------------------------------------------------- batch execution
@@ -387,6 +430,9 @@ func checkProperty(id, tier string, seed uint64, budget time.Duration, maxRuns i
 				res := execRun(bld, in, runDir, p.RunWall)
 				mu.Lock()
 				st.add(in, res, b.Name)
+				if in.Race && res.Verdict != "crash" && res.Verdict != "hang" {
+					res.Violations = append(res.Violations, classifyRaces(res.Crash)...)
+				}
 				if res.Verdict == "crash" {
 					if v, herr := classifyCrash(res); v != nil {
 						res.Violations = append(res.Violations, *v)
@@ -401,7 +447,7 @@ func checkProperty(id, tier string, seed uint64, budget time.Duration, maxRuns i
 					}
 				}
 				for vi := range res.Violations {
-					if p.CrashCounts && res.Violations[vi].Property == "C16" {
+					if p.CrashCounts && id != "C16" && res.Violations[vi].Property == "C16" {
 						res.Violations[vi].Property = id
 						res.Violations[vi].Oracle = "crash-" + res.Violations[vi].Oracle
 					}
@@ -468,11 +514,7 @@ func checkProperty(id, tier string, seed uint64, budget time.Duration, maxRuns i
 		var last *Result
 		for i := 0; i < 2; i++ {
 			r := execRun(bld, min, runDir, p.RunWall)
-			if r.Verdict == "crash" {
-				if v, _ := classifyCrash(r); v != nil {
-					r.Violations = append(r.Violations, *v)
-				}
-			}
+			postProcess(min, r)
 			if hasViolation(r, g.f.v) {
 				okc++
 				last = r
@@ -511,6 +553,62 @@ func checkProperty(id, tier string, seed uint64, budget time.Duration, maxRuns i
 	return exit
 }
 
+var raceFrpFrame = regexp.MustCompile(`github\.com/fatedier/(frp/(server|pkg)|golib)/[^\s(]*`)
+
+// classifyRaces turns race-detector reports into C16 violations when the conflicting access is a map
+// operation or a channel close reached from frp server/pkg code on both sides.
+func classifyRaces(stderr string) []Violation {
+	var out []Violation
+	seen := map[string]bool{}
+	for _, blk := range strings.Split(stderr, "==================") {
+		if !strings.Contains(blk, "WARNING: DATA RACE") {
+			continue
+		}
+		// the two access stacks precede the first "Goroutine N (" line
+		body := blk
+		if i := strings.Index(body, "\nGoroutine "); i > 0 {
+			body = body[:i]
+		}
+		parts := regexp.MustCompile(`(?m)^(Previous )?([Rr]ead|[Ww]rite) at `).Split(body, -1)
+		if len(parts) < 3 {
+			continue
+		}
+		a, b := parts[1], parts[2]
+		// only map accesses: a concurrent map read/write is an unrecoverable fatal error in production, whereas a
+		// send racing a channel close is a panic that frp recovers from (an unrecovered one is caught as a crash)
+		isTable := func(s string) bool {
+			return strings.Contains(s, "runtime.map") || strings.Contains(s, "internal/runtime/maps.")
+		}
+		// the access itself must be in frp code: innermost frame that is not the Go runtime
+		inner := func(s string) string {
+			for _, l := range strings.Split(s, "\n") {
+				l = strings.TrimSpace(l)
+				if l == "" || strings.HasPrefix(l, "0x") || strings.Contains(l, " by goroutine ") || strings.HasPrefix(l, "/") || strings.Contains(l, ".go:") {
+					continue
+				}
+				if strings.HasPrefix(l, "runtime.") || strings.HasPrefix(l, "internal/runtime/") || strings.HasPrefix(l, "sync.") || strings.HasPrefix(l, "sync/atomic.") {
+					continue
+				}
+				return l
+			}
+			return ""
+		}
+		fa, fb := raceFrpFrame.FindString(inner(a)), raceFrpFrame.FindString(inner(b))
+		if fa == "" || fb == "" || !(isTable(a) || isTable(b)) {
+			continue
+		}
+		pair := []string{fa, fb}
+		sort.Strings(pair)
+		sig := pair[0] + " <-> " + pair[1]
+		if seen[sig] {
+			continue
+		}
+		seen[sig] = true
+		out = append(out, Violation{Property: "C16", Oracle: "race", Sig: sig, Detail: "unsynchronised concurrent access to a shared table:\n" + tail(strings.TrimSpace(body), 40)})
+	}
+	return out
+}
+
 func hasViolation(r *Result, v Violation) bool {
 	for _, x := range r.Violations {
 		if x.Sig != v.Sig {
@@ -538,11 +636,7 @@ func minimise(bld *build, runDir string, p *propSpec, f found) RunInput {
 	}
 	try := func(c RunInput) bool {
 		r := execRun(bld, c, runDir, p.RunWall)
-		if r.Verdict == "crash" {
-			if v, _ := classifyCrash(r); v != nil {
-				r.Violations = append(r.Violations, *v)
-			}
-		}
+		postProcess(c, r)
 		return hasViolation(r, f.v)
 	}
 	budget := 40
@@ -692,11 +786,7 @@ func doReplay(path string) int {
 	hashes := map[string]bool{}
 	for i := 0; i < 2; i++ {
 		r := execRun(bld, in, runDir, wall)
-		if r.Verdict == "crash" {
-			if v, _ := classifyCrash(r); v != nil {
-				r.Violations = append(r.Violations, *v)
-			}
-		}
+		postProcess(in, r)
 		hashes[r.LogHash] = true
 		if hasViolation(r, rep.Viol) {
 			ok++
